@@ -84,21 +84,21 @@ def main(tier, seed):
                 if d <= cal.mdays(y, m):
                     ymd_days.append(date(y, m, d).toordinal())
     alld = range(cal.ORD_MIN, cal.ORD_MAX + 1)
-    rnd = rng.sample(alld, 8000 if quick else 200000)
+    rnd = rng.sample(alld, 8000 if quick else 40000)
     sets = {}
     sets["ymd"] = sorted(set(rng.sample(ymd_days, 16000 if quick else len(ymd_days))) | set(rnd[:4000]))
-    cand = rng.sample(alld, 60000 if quick else 500000)
+    cand = rng.sample(alld, 60000 if quick else 200000)
     sets["ymcw"] = sorted(set(o for o in cand if cal.Day(o).cnt_mon >= 4)[:12000 if quick else None]) if False else \
-        sorted([o for o in cand if cal.Day(o).cnt_mon >= 4][:12000 if quick else 200000] + rnd[:3000])
-    sets["ywd"] = sorted([o for o in cand if cal.Day(o).iw >= 52][:6000 if quick else 100000] + rnd[:4000])
+        sorted([o for o in cand if cal.Day(o).cnt_mon >= 4][:12000 if quick else 40000] + rnd[:3000])
+    sets["ywd"] = sorted([o for o in cand if cal.Day(o).iw >= 52][:6000 if quick else 20000] + rnd[:4000])
     sets["yd"] = sorted([date(y, 12, d).toordinal() for y in range(1601, 4096) for d in (30, 31)][::1 if not quick else 2]
                         + rnd[:4000])
-    sets["bizda"] = sorted([o for o in cand if dur.is_bday(o) and dur.bday_index(o) >= 19][:8000 if quick else 100000]
+    sets["bizda"] = sorted([o for o in cand if dur.is_bday(o) and dur.bday_index(o) >= 19][:8000 if quick else 25000]
                            + [o for o in rnd[:6000] if dur.is_bday(o)])
     tasks = []
     for K, (fm, fy) in FN.items():
         S = sets[K]
-        small = rng.sample(S, min(len(S), 2500 if quick else 20000))
+        small = rng.sample(S, min(len(S), 2500 if quick else 8000))
         if fm:
             for n in MON_N:
                 for s in (1, -1):
